@@ -69,10 +69,8 @@ func readFrameOfType(fType byte, reader *bufio.Reader, isTCP bool) (frame, error
 
 		// actual data
 		data = make([]byte, length)
-		var n int
-		for read := 0; read < length && err == nil; {
-			n, err = reader.Read(data[read:])
-			read += n
+		if _, err := io.ReadFull(reader, data); err != nil {
+			return nil, err // Don't pass on a truncated frame
 		}
 	default:
 		return nil, fmt.Errorf("Unexpected frame type %c", fType)
@@ -85,7 +83,9 @@ func readFrameOfType(fType byte, reader *bufio.Reader, isTCP bool) (frame, error
 	// Verify CRC sums
 	if !isTCP {
 		sumBytes := make([]byte, 2)
-		reader.Read(sumBytes)
+		if _, err := io.ReadFull(reader, sumBytes); err != nil { // The two bytes may arrive separately
+			return nil, err
+		}
 		crc := binary.BigEndian.Uint16(sumBytes)
 		if crc16Sum(data) != crc {
 			return nil, ErrChecksumMismatch
